@@ -677,4 +677,25 @@ theorem eval_piecewise_node (ctx : Ctx ℝ) (p : String) (b : List ℝ) (x : ℝ
     | cons a l ih => simp [evalList, eval, ih]
   simp only [eval, call, hev, List.length_map, haa, ok_bind, get_some hx]
 
+/-! ### `MassActionEq.equilibrium_equation` -/
+
+/-- the signed concentration product for positive concentrations -/
+theorem eqConcProd_pos (ctx : Ctx ℝ) (c : String → ℝ) : ∀ (l : List (String × ℤ)) (acc : ℝ),
+    (∀ p ∈ l, ctx.vars p.1 = some (c p.1) ∧ 0 < c p.1) →
+    eqConcProd ctx l (some acc) = .ok (some (acc * (l.map fun p => c p.1 ^ p.2).prod))
+  | [], acc, _ => by simp [eqConcProd]
+  | (k, e) :: rest, acc, h => by
+      have hk := h (k, e) List.mem_cons_self
+      have ih := eqConcProd_pos ctx c rest (acc * c k ^ e) (fun p hp => h p (List.mem_cons_of_mem _ hp))
+      simp only [eqConcProd, get_some hk.1, ok_bind, pow_real_int hk.2, List.map_cons, List.prod_cons]
+      rw [ih, mul_assoc]
+
+theorem eqConcProd_pos_none (ctx : Ctx ℝ) (c : String → ℝ) (k : String) (e : ℤ) (rest : List (String × ℤ))
+    (h : ∀ p ∈ (k, e) :: rest, ctx.vars p.1 = some (c p.1) ∧ 0 < c p.1) :
+    eqConcProd ctx ((k, e) :: rest) none = .ok (some ((((k, e) :: rest).map fun p => c p.1 ^ p.2).prod)) := by
+  have hk := h (k, e) List.mem_cons_self
+  have ih := eqConcProd_pos ctx c rest (c k ^ e) (fun p hp => h p (List.mem_cons_of_mem _ hp))
+  simp only [eqConcProd, get_some hk.1, ok_bind, pow_real_int hk.2, List.map_cons, List.prod_cons]
+  exact ih
+
 end ChemModel.PyExpr
